@@ -260,21 +260,35 @@ def _collapse_part(ctx, model):
             outs = [outs[0]] * nops
         ops = [linop.MatrixOperator(jnp.asarray(common.dyadic(rng, (m, n)), dtype=np.float64)) for m in outs]
         co = bool(rng.random() < 0.7)
-        V = linop.VerticalStack(ops, collapse_output=co)
-        y = V(jnp.ones((n,), dtype=np.float64))
+        ci = co if rng.random() < 0.5 else (not co)
         r = model.raw({"op": "collapse", "shapes": [[m] for m in outs], "allow": co})
         want = r["ok"]["shape"]
         ctx.case({"vstack": outs, "collapse": co}, ("vstack", tuple(outs), co))
-        if _tolist(V.output_shape) != want or _tolist(y.shape) != want:
-            ctx.disagree("shape.vertical_stack", {"outs": outs, "collapse": co}, [_tolist(V.output_shape), _tolist(y.shape)], want)
+        # (an exception of the stack under test is a disagreement, never an infrastructure failure)
+        try:
+            V = linop.VerticalStack(ops, collapse_output=co)
+            y = V(jnp.ones((n,), dtype=np.float64))
+            got = [_tolist(V.output_shape), _tolist(y.shape)]
+        except Exception as ex:  # noqa: BLE001
+            got = ["raised " + type(ex).__name__ + ": " + str(ex)[:120]]
+        if got != [want, want]:
+            ctx.disagree("shape.vertical_stack", {"outs": outs, "collapse": co}, got, [want, want],
+                         oracle=lambda c, got=got, want=want: {"operand_output_shapes": [[m] for m in outs], "collapse_output": co,
+                                                              "declared_and_returned": got, "documented": want})
             return
-        D = linop.DiagonalStack(ops, collapse_input=co, collapse_output=co)
-        x = snp_stack(D.input_shape)
-        yd = D(x)
-        ri = model.raw({"op": "collapse", "shapes": [[n]] * nops, "allow": co})["ok"]["shape"]
-        if _tolist(D.input_shape) != ri or _tolist(D.output_shape) != want or _tolist(yd.shape) != want:
-            ctx.disagree("shape.diagonal_stack", {"outs": outs, "n": n, "collapse": co},
-                         [_tolist(D.input_shape), _tolist(D.output_shape), _tolist(yd.shape)], [ri, want, want])
+        ri = model.raw({"op": "collapse", "shapes": [[n]] * nops, "allow": ci})["ok"]["shape"]
+        try:
+            D = linop.DiagonalStack(ops, collapse_input=ci, collapse_output=co)
+            x = snp_stack(D.input_shape)
+            yd = D(x)
+            za = D.adj(snp_stack(D.output_shape))
+            got = [_tolist(D.input_shape), _tolist(D.output_shape), _tolist(yd.shape), _tolist(za.shape)]
+        except Exception as ex:  # noqa: BLE001
+            got = ["raised " + type(ex).__name__ + ": " + str(ex)[:120]]
+        if got != [ri, want, want, ri]:
+            ctx.disagree("shape.diagonal_stack", {"outs": outs, "n": n, "collapse_input": ci, "collapse_output": co}, got, [ri, want, want, ri],
+                         oracle=lambda c, got=got, ri=ri, want=want: {"operands": [[m, n] for m in outs], "collapse_input": ci, "collapse_output": co,
+                                                                     "declared_in_out_returned_eval_adj": got, "documented": [ri, want, want, ri]})
             return
 
 
